@@ -1,5 +1,6 @@
 """C02 - formation, track and depot capacity limits."""
 from .. import optabs, prov
+from ..engine import run_controls
 from ..rulelib import *
 from . import common, flownet
 
@@ -18,16 +19,27 @@ UTF = S("update_train_formation")
 DEPOT = "model::network::depot::Depot"
 
 
-def has_min_call(ctx, key):
-    fd = ctx.fd(key)
+def capacity_capped_by_total(ctx, key=DEPOT + "::capacity_for", adt=DEPOT, tab="allowed_types", tot="total_capacity"):
+    """every value capacity_for returns that comes out of the per-type table is either computed from the total capacity
+    as well (min) or returned under a comparison with it"""
+    o, fd = ctx.require_fn("R4.%s-caps-by-total" % key.split("::")[-1], "T9", key,
+                           "a per-type capacity is capped by the depot's total capacity (min of both)")
     if fd is None:
-        return False
-    at = fd.ret_slice()["atoms"]
-    return any(a.endswith("::min") for a in at if a.startswith(("call:", "decl:")))
+        return
+    recs = optabs.value_paths(fd.body, field_labels={field(adt, tab): "table", field(adt, tot): "total"}, prog=ctx.prog)
+    from_table = [r for r in recs if "table" in r["ret_src"]]
+    bad = [r for r in from_table if "total" not in r["ret_src"] and "total" not in r["ctl_src"]]
+    if bad:
+        ctx.bad(o, "on %d of %d paths the returned value comes from the per-type table and is neither computed from nor compared with the "
+                "depot's total capacity: a type limit above the total lets the depot spawn more vehicles than it holds" % (len(bad), len(recs)))
+    elif from_table:
+        ctx.ok(o, "%d of %d paths return a per-type value, all capped by total_capacity" % (len(from_table), len(recs)))
+    else:
+        ctx.undecided(o, "no returned value is recognised as coming from the per-type table")
 
 
-def limit_combination(ctx):
-    o, fd = ctx.require_fn("R3.limit-combination", "T1+abs", MFC,
+def limit_combination(ctx, key=MFC, VT_MFC=VT_MFC, ST_MFC=ST_MFC):
+    o, fd = ctx.require_fn("R3.limit-combination", "T1+abs", key,
                            "the applicable formation limit is absent only if both the type limit and the segment limit are absent")
     if fd is None:
         return
@@ -53,12 +65,13 @@ def limit_combination(ctx):
     sample = {"%s/%s" % k: v for k, v in tab.items()}
     if not bad and not und:
         # value provenance: both present => derived from both (the smaller one), one present => that one
-        ps = optabs.presence_sources(fd.body, VT_MFC, ST_MFC)
+        ps = optabs.presence_sources(fd.body, VT_MFC, ST_MFC, prog=ctx.prog)
         wantv = {("S", "S"): ("A", "B"), ("S", "N"): ("A",), ("N", "S"): ("B",)}
         lab = {"A": "the type's limit", "B": "the segment's limit"}
         for case, wv in wantv.items():
             got = {v for t, v in ps[case] if t == "S"}
-            if got and got != {wv}:
+            # an absent limit cannot contribute a value, so only a missing source is a defect
+            if got and any(not set(wv) <= set(g) for g in got):
                 bad.append("type limit %s, segment limit %s => the value is taken from %s instead of %s" % (
                     names[case[0]], names[case[1]],
                     " / ".join(" and ".join(lab[x] for x in g) or "neither" for g in sorted(got)), " and ".join(lab[x] for x in wv)))
@@ -214,9 +227,7 @@ def depot_limits(ctx):
         ctx.decide(o, ok, "the capacity-aware choice dominates every return",
                    "a return of improve_depots_of_tour is reachable without consulting find_best_start_depot_for_spawning: a start depot whose "
                    "place was released (and possibly taken by an earlier vehicle of the batch) is kept without a capacity test")
-    must_depend(ctx, "R4.capacity_for-caps-by-total", "T9", DEPOT + "::capacity_for", "ret", ["decl:core::cmp::Ord::min"],
-                "a per-type capacity is capped by the depot's total capacity (min of both)") if not has_min_call(ctx, DEPOT + "::capacity_for") else \
-        ctx.ok(ctx.ob("R4.capacity_for-caps-by-total", "T9", DEPOT + "::capacity_for", "a per-type capacity is capped by the depot's total capacity (min of both)"), "uses min")
+    capacity_capped_by_total(ctx)
     o, fd = ctx.require_fn("R5.improve-depots-passes-usage", "T1", S("improve_depots"),
                            "improve_depots hands its working depot usage to the per-tour improvement")
     if fd is not None:
@@ -286,3 +297,25 @@ def rules(ctx):
     limit_combination(ctx)
     depot_limits(ctx)
     flow_bounds(ctx)
+
+
+def controls(ctx):
+    """the path interpreter on planted forms: the defective ones must be reported, the sound ones must not"""
+    ST = "controls::Store"
+
+    def expect(fn, bad_keys, good_keys):
+        def spec(c):
+            for k in good_keys:
+                fn(c, k)
+                wrong = [o for o in c.obligations if o.status != "ok"]
+                if wrong:
+                    raise AssertionError("sound form %s is reported: %s %s" % (k, wrong[0].status, wrong[0].detail[:120]))
+            for k in bad_keys:
+                fn(c, k)
+        return spec
+    cap = lambda c, k: capacity_capped_by_total(c, key=ST + "::" + k, adt=ST, tab="table", tot="total")
+    lim = lambda c, k: limit_combination(c, key=ST + "::" + k, VT_MFC=ST + "::a", ST_MFC=ST + "::b")
+    return run_controls([
+        ("value taken from the table without the cap (and three capped forms accepted)", expect(cap, ["cap_missing"], ["cap_min", "cap_if", "cap_map_or"])),
+        ("second limit ignored when the first is present (and two sound combinations accepted)", expect(lim, ["first_wins"], ["both_match", "both_map_or"])),
+    ])
